@@ -3,6 +3,7 @@ package c06
 import (
 	"bytes"
 	"fmt"
+	"net"
 	"os"
 	"path/filepath"
 	"strings"
@@ -53,12 +54,15 @@ type pubAudio struct {
 
 type published struct {
 	cd    gen.Codecs
+	items []gen.Item
+	wrap  bool   // the 32-bit RTMP timestamp rolls over inside the case
+	asc   []byte // the AudioSpecificConfig as published (2 or more bytes)
 	video []pubVideo
 	audio []pubAudio
 }
 
 func buildPublished(cd gen.Codecs, all []gen.Item) *published {
-	p := &published{cd: cd}
+	p := &published{cd: cd, items: all}
 	for i, it := range all {
 		switch it.Kind {
 		case "video":
@@ -85,6 +89,12 @@ func buildPublished(cd gen.Codecs, all []gen.Item) *published {
 // keepNal implements "differences being confined to access-unit delimiters,
 // parameter sets re-inserted before key frames and H.265 SEI omitted from TS":
 // those unit types are removed from both sides before comparing.
+//
+// RTSP leg: only access-unit delimiters are removed — in-band parameter sets
+// and SEI travel as ordinary units and must arrive.  TS legs: lal lifts
+// parameter sets out of the frames and re-inserts the ones in force before key
+// frames, so they are removed here and judged separately (checkTs: the sets in
+// front of every key frame must be the latest in force).
 func keepNal(codec string, leg string, nal []byte) bool {
 	if len(nal) == 0 {
 		return false
@@ -92,18 +102,43 @@ func keepNal(codec string, leg string, nal []byte) bool {
 	t := nalType(codec, nal)
 	if codec == "hevc" {
 		switch t {
-		case 35, 32, 33, 34:
+		case 35:
 			return false
-		case 39, 40:
+		case 32, 33, 34, 39, 40:
 			return leg == "rtsp"
 		}
 		return true
 	}
 	switch t {
-	case 9, 7, 8:
+	case 9:
 		return false
+	case 7, 8:
+		return leg == "rtsp"
 	}
 	return true
+}
+
+func isParamSet(codec string, nal []byte) bool {
+	t := nalType(codec, nal)
+	if codec == "hevc" {
+		return t >= 32 && t <= 34
+	}
+	return t == 7 || t == 8
+}
+
+// isIrap: IDR slice (H.264) / IRAP picture slice (H.265).
+func isIrap(codec string, nal []byte) bool {
+	t := nalType(codec, nal)
+	if codec == "hevc" {
+		return t >= 16 && t <= 23
+	}
+	return t == 5
+}
+
+// opensRtspStream: the unit types at which lal lets a waiting RTSP subscriber
+// start (documented out_wait_key_frame behaviour: key frame or parameter set).
+func opensRtspStream(codec string, nal []byte) bool {
+	return isIrap(codec, nal) || isParamSet(codec, nal)
 }
 
 type flatNal struct {
@@ -166,6 +201,8 @@ func sdpReadyAfter(cd gen.Codecs, all []gen.Item) int {
 // RTSP consumer
 
 type rtspCons struct {
+	udp     bool           // RTP over UDP (real loopback sockets) instead of interleaved in the RTSP connection
+	socks   []*net.UDPConn // udp: rtp, rtcp socket per track
 	conn    *memconn.Conn
 	cl      *rtspref.Client
 	sdp     []byte
@@ -217,6 +254,15 @@ func (r *rtspCons) play() error {
 	if len(ctl) == 0 {
 		return fmt.Errorf("DESCRIBE: session description without media control attributes: %q", resp.Body)
 	}
+	if r.udp {
+		if err := r.setupPlayUDP(ctl); err != nil {
+			return err
+		}
+		_ = r.conn.SetReadDeadline(time.Time{})
+		r.conn.WaitPeerIdle(lalclient.IdleTimeout)
+		r.stage = 2
+		return nil
+	}
 	if err := r.cl.SetupPlay(rtspURI, ctl); err != nil {
 		return err
 	}
@@ -240,6 +286,72 @@ func (r *rtspCons) play() error {
 		}
 	}()
 	return nil
+}
+
+// setupPlayUDP: SETUP with client_port for every media section (lal binds a port pair of its own and sends RTP to
+// ours), then PLAY.  Datagrams of track i are recorded as frames of "channel" 2i so that the oracle is shared with
+// the interleaved consumer.
+func (r *rtspCons) setupPlayUDP(ctl []string) error {
+	for i, c := range ctl {
+		var pair [2]*net.UDPConn
+		for k := range pair {
+			u, err := net.ListenUDP("udp4", &net.UDPAddr{IP: net.IPv4(127, 0, 0, 1)})
+			if err != nil {
+				harness("udp socket: %v", err)
+			}
+			_ = u.SetReadBuffer(4 << 20)
+			pair[k] = u
+			r.socks = append(r.socks, u)
+		}
+		u := c
+		if !strings.HasPrefix(c, "rtsp://") {
+			u = rtspURI + "/" + c
+		}
+		tr := fmt.Sprintf("RTP/AVP/UDP;unicast;client_port=%d-%d", pair[0].LocalAddr().(*net.UDPAddr).Port, pair[1].LocalAddr().(*net.UDPAddr).Port)
+		resp, err := r.cl.Do("SETUP", u, map[string]string{"Transport": tr}, nil)
+		if err != nil {
+			return fmt.Errorf("SETUP (udp): %v", err)
+		}
+		if resp.Status != 200 {
+			return fmt.Errorf("SETUP (udp): status %d", resp.Status)
+		}
+		ch := 2 * i
+		go func(rtp *net.UDPConn) {
+			buf := make([]byte, 65536)
+			for {
+				n, _, err := rtp.ReadFromUDP(buf)
+				if err != nil {
+					return
+				}
+				r.mu.Lock()
+				r.frames = append(r.frames, rtspref.Frame{Channel: ch, Payload: append([]byte(nil), buf[:n]...)})
+				r.cond.Broadcast()
+				r.mu.Unlock()
+			}
+		}(pair[0])
+		go func(rtcp *net.UDPConn) {
+			buf := make([]byte, 2048)
+			for {
+				if _, _, err := rtcp.ReadFromUDP(buf); err != nil {
+					return
+				}
+			}
+		}(pair[1])
+	}
+	resp, err := r.cl.Do("PLAY", rtspURI, map[string]string{"Range": "npt=0.000-"}, nil)
+	if err != nil {
+		return fmt.Errorf("PLAY: %v", err)
+	}
+	if resp.Status != 200 {
+		return fmt.Errorf("PLAY: status %d", resp.Status)
+	}
+	return nil
+}
+
+func (r *rtspCons) closeUDP() {
+	for _, u := range r.socks {
+		_ = u.Close()
+	}
 }
 
 func (r *rtspCons) waitFor(pred func(rtspref.Frame) bool, timeout time.Duration) bool {
@@ -307,14 +419,17 @@ func harness(format string, a ...interface{}) {
 
 type consState struct {
 	spec Cons
+	lost bool // rtspu: datagrams went missing on the loopback path; the consumer is not judged
 	ts   *lalclient.TsConsumer
 	rt   *rtspCons
 }
 
 func run(c Case) *pbt.Violation {
 	cd := c.Codecs
-	all := append(append([]gen.Item(nil), c.Items...), tailItems(cd, c.Items)...)
+	all := append(append([]gen.Item(nil), c.Items...), tailItems(cd, c.Items, c.Wrap)...)
 	pub := buildPublished(cd, all)
+	pub.wrap = c.Wrap
+	pub.asc = ascBytes(cd, c.AscExt)
 	ready := sdpReadyAfter(cd, all)
 	if ready < 0 {
 		harness("model: the session description never becomes available")
@@ -327,13 +442,20 @@ func run(c Case) *pbt.Violation {
 	for i, k := range c.Cons {
 		cons[i] = &consState{spec: k}
 	}
+	defer func() {
+		for _, cs := range cons {
+			if cs.rt != nil {
+				cs.rt.closeUDP()
+			}
+		}
+	}()
 	// act performs what is scheduled at position k (= after all[0..k) were processed; -1 = before the publisher)
 	needAct := func(k int) bool {
 		for _, cs := range cons {
 			if cs.spec.JoinAt == k {
 				return true
 			}
-			if cs.spec.Kind == "rtsp" && k >= 0 && k == maxInt(cs.spec.JoinAt, ready) {
+			if isRtsp(cs.spec.Kind) && k >= 0 && k == maxInt(cs.spec.JoinAt, ready) {
 				return true
 			}
 		}
@@ -345,8 +467,9 @@ func run(c Case) *pbt.Violation {
 				switch cs.spec.Kind {
 				case "ts":
 					cs.ts = lalclient.NewTsSub(s, "live", streamName)
-				case "rtsp":
+				case "rtsp", "rtspu":
 					cs.rt = newRtspCons(s)
+					cs.rt.udp = cs.spec.Kind == "rtspu"
 					if err := cs.rt.describe(); err != nil {
 						if v := s.PanicViolation(); v != nil {
 							return v
@@ -355,7 +478,7 @@ func run(c Case) *pbt.Violation {
 					}
 				}
 			}
-			if cs.spec.Kind == "rtsp" && k >= 0 && k == maxInt(cs.spec.JoinAt, ready) {
+			if isRtsp(cs.spec.Kind) && k >= 0 && k == maxInt(cs.spec.JoinAt, ready) {
 				if err := cs.rt.play(); err != nil {
 					if v := s.PanicViolation(); v != nil {
 						return v
@@ -395,7 +518,13 @@ func run(c Case) *pbt.Violation {
 			}
 		}
 		if k < len(all) {
-			if err := p.SendItem(all[k], cd, 0); err != nil {
+			var err error
+			if all[k].Kind == "ash" {
+				err = p.Send(gen.TypeAudio, all[k].Ts, append([]byte{0xAF, 0}, pub.asc...), 0)
+			} else {
+				err = p.SendItem(all[k], cd, 0)
+			}
+			if err != nil {
 				if v := s.PanicViolation(); v != nil {
 					return v
 				}
@@ -446,24 +575,34 @@ func run(c Case) *pbt.Violation {
 				}
 				body := cs.ts.Body()
 				if len(body) <= 2*188 {
-					return pbt.V("never-started/ts", "%s received %d bytes although the stream ends with a key frame preceded by audio and 19 more frames", who, len(body))
+					return pbt.V("never-started/ts", "%s received %d bytes although the tail of the stream holds a start point (audio frame, key frame 1 ms later) followed by more frames", who, len(body))
 				}
 				return pbt.V("end-missing/ts", "%s received %d bytes but not the last frame of every track (video %v, audio %v)", who, len(body),
 					lastV != nil && tsTailHas(body, [][]byte{lastV}), lastA != nil && tsCarriesAudio(cd) && tsTailHas(body, [][]byte{lastA}))
 			}
-		case "rtsp":
+		case "rtsp", "rtspu":
 			for _, needle := range [][]byte{lastV, lastA} {
 				if needle == nil {
 					continue
 				}
 				nd := needle
-				if !cs.rt.waitFor(func(f rtspref.Frame) bool { return f.Channel%2 == 0 && bytes.Contains(f.Payload, nd) }, waitGuard) {
+				guard := waitGuard
+				if cs.rt.udp {
+					guard = 2 * time.Second
+				}
+				if !cs.rt.waitFor(func(f rtspref.Frame) bool { return f.Channel%2 == 0 && bytes.Contains(f.Payload, nd) }, guard) {
+					if cs.rt.udp {
+						// UDP gives no delivery guarantee, not even on loopback under load: a missing end marker makes the
+						// consumer inconclusive, unless a whole track stayed silent (see checkRtsp)
+						cs.lost = true
+						continue
+					}
 					if v := s.PanicViolation(); v != nil {
 						return v
 					}
 					fr := cs.rt.snapshot()
 					if len(fr) == 0 {
-						return pbt.V("never-started/rtsp", "%s received no RTP packet although the stream ends with a key frame and 19 more frames", who)
+						return pbt.V("never-started/rtsp", "%s received no RTP packet although the tail of the stream holds a key frame (after the session description exists) followed by more frames", who)
 					}
 					return pbt.V("end-missing/rtsp", "%s received %d interleaved frames but not the last frame of every track (missing unit of %d bytes)", who, len(fr), len(nd))
 				}
@@ -476,11 +615,11 @@ func run(c Case) *pbt.Violation {
 		who := fmt.Sprintf("consumer %d (%s, join_at %d of %d items, codecs %s)", i, cs.spec.Kind, cs.spec.JoinAt, len(c.Items), codecPair(cd))
 		switch cs.spec.Kind {
 		case "ts":
-			if v := checkTs(who, "ts", cs.ts.Body(), pub); v != nil {
+			if v := checkTs(who, "ts", cs.ts.Body(), pub, cs.spec.JoinAt); v != nil {
 				return v
 			}
-		case "rtsp":
-			if v := checkRtsp(who, cs.rt.sdp, cs.rt.snapshot(), pub); v != nil {
+		case "rtsp", "rtspu":
+			if v := checkRtsp(who, cs.rt.sdp, cs.rt.snapshot(), pub, maxInt(cs.spec.JoinAt, ready), cs.rt.udp, cs.lost); v != nil {
 				return v
 			}
 		}
@@ -492,7 +631,7 @@ func run(c Case) *pbt.Violation {
 			return pbt.V("hls/unreadable", "%s: %v", who, err)
 		}
 		if nseg == 0 {
-			return pbt.V("never-started/hls", "%s: no segment was written although the stream ends with a key frame preceded by audio and 19 more frames", who)
+			return pbt.V("never-started/hls", "%s: no segment was written although the tail of the stream holds a start point (audio frame, key frame 1 ms later) followed by more frames", who)
 		}
 		var needles [][]byte
 		if lastV != nil {
@@ -504,12 +643,14 @@ func run(c Case) *pbt.Violation {
 		if !tsTailHas(body, needles) {
 			return pbt.V("end-missing/hls", "%s: the segments (%d bytes) do not hold the last frame of every track", who, len(body))
 		}
-		if v := checkTs(who, "hls", body, pub); v != nil {
+		if v := checkTs(who, "hls", body, pub, 0); v != nil {
 			return v
 		}
 	}
 	return nil
 }
+
+func isRtsp(kind string) bool { return kind == "rtsp" || kind == "rtspu" }
 
 func maxInt(a, b int) int {
 	if a > b {
